@@ -406,7 +406,8 @@ fn iter_with_next<T>(
 fn write_long_bracket(value: &[u8]) -> Option<String> {
     let stringified = str::from_utf8(value).ok()?;
 
-    let mut i: usize = value.ends_with(b"]").into();
+    // Lua 5.1 refuses a `[[` inside a long bracket without equal signs
+    let mut i: usize = (value.ends_with(b"]") || value.find(b"[[").is_some()).into();
     let mut equals = b"=".repeat(i);
     equals.insert(0, b']');
     equals.push(b']');
